@@ -35,10 +35,13 @@ type Prog struct {
 
 // Load loads ./... under dir with the given build tags. It fails on any type error
 // and when the expected packages are missing: an analysis of a partial program proves nothing.
-func Load(dir, tags string) (*Prog, error) {
+// Load loads the subject; LoadOverlay additionally replaces file contents in memory (positive controls).
+func Load(dir, tags string) (*Prog, error) { return LoadOverlay(dir, tags, nil) }
+
+func LoadOverlay(dir, tags string, overlay map[string][]byte) (*Prog, error) {
 	os.Unsetenv("GOWORK")
 	env := append(os.Environ(), "GOFLAGS=-mod=mod", "GOPROXY=off", "GOSUMDB=off", "GOTOOLCHAIN=local", "GOWORK=off")
-	cfg := &packages.Config{Mode: packages.LoadSyntax, Dir: dir, Tests: false, Env: env}
+	cfg := &packages.Config{Mode: packages.LoadSyntax, Dir: dir, Tests: false, Env: env, Overlay: overlay}
 	if tags != "" {
 		cfg.BuildFlags = []string{"-tags=" + tags}
 	}
